@@ -177,7 +177,7 @@ func unusualSpecs(rng *rand.Rand, n int) []struct {
 		s := func() string { return strs[rng.Intn(len(strs))] }
 		f.Info = []string{"/version " + s() + " readonly def", "/Notice " + s() + " readonly def", "/FullName " + s() + " readonly def",
 			"/FamilyName " + s() + " readonly def", "/Weight " + s() + " readonly def",
-			"/ItalicAngle " + []string{"0", "-12", "-12.5", "1e1"}[rng.Intn(4)] + " def", "/isFixedPitch " + []string{"true", "false"}[rng.Intn(2)] + " def",
+			"/ItalicAngle " + []string{"0", "-12", "-12.5", "1e1", "-12.0", "7."}[rng.Intn(6)] + " def", "/isFixedPitch " + []string{"true", "false"}[rng.Intn(2)] + " def",
 			"/UnderlinePosition " + []string{"-100", "-100.5"}[rng.Intn(2)] + " def", "/UnderlineThickness 50 def"}
 		f.Private = []string{"/BlueValues [-10 0 700 710] def"}
 		switch rng.Intn(6) {
